@@ -348,8 +348,8 @@ const long int* getParticleIndexes(const long int inIdxLeaf) const {
     }
 
     auto getDataPtrsAndSizes() const{
-        return std::array<std::pair<const unsigned char*,size_t>,2>{std::pair<unsigned char*,size_t>{objectData.getPtr(), objectData.getAllocatedMemorySizeInByte()},
-                                                                 std::pair<unsigned char*,size_t>{objectRhs.getPtr(), objectRhs.getAllocatedMemorySizeInByte()}};
+        return std::array<std::pair<const unsigned char*,size_t>,2>{std::pair<const unsigned char*,size_t>{objectData.getPtr(), objectData.getAllocatedMemorySizeInByte()},
+                                                                 std::pair<const unsigned char*,size_t>{objectRhs.getPtr(), objectRhs.getAllocatedMemorySizeInByte()}};
 
     }
 
